@@ -345,8 +345,8 @@ def run(ctx):
                                    "source": s, "expected": e, "got": o, "origin": fn})
 
     # ---------------- generated programs
-    nprog = ctx.n(150, 2500)
-    nsched_oracle = ctx.n(5, 24)
+    nprog = ctx.n(130, 2500)
+    nsched_oracle = ctx.n(4, 24)
     programs = []
     for i in range(nprog):
         g = Gen(rng)
